@@ -21,7 +21,7 @@ TECHNIQUE = "property-based testing on a deterministic actor/asyncio simulator: 
 RULE = (
     "Generated: C01-style races (1-4 elements, parallel elements, completed-by, 1-3 hosts x 1-4 cores, message delays up to 7 s, "
     "wake-up lateness) with some steps longer than the 30 s post-processing interval, requests with 1-2 dependent sub-requests, "
-    "error outcomes under on-error=continue, pre-emption windows {0, 1/1024, 1/8, 1} s at Future.done() inside actor handlers (executor "
+    "error outcomes under on-error=continue, pre-emption windows {0, 1/1024, 1/64, 1/8} s at Future.done() inside actor handlers (executor "
     "thread work happening while a handler runs); settings class: default | down-sample factor 2 or 7 | sample queue size 1-3. "
     "Non-trivial = >= 2 workers and >= 2 steps and at least one periodic post-processing tick stored records inside a step. "
     "Distinct = distinct canonical JSON."
